@@ -85,10 +85,12 @@ def shrink_list(items: list, fails, max_tests: int = 150) -> list:
 NS_PREFIXES = ["", "ex", "v", "é", "p1", "p2", "long-prefix", "x_y"]
 
 
-def bindings(rng: random.Random, vocab_ns: list | None = None, k: int | None = None) -> list:
+def bindings(rng: random.Random, vocab_ns: list | None = None, k: int | None = None,
+             odd_labels: bool = False) -> list:
     """1:1 ordered binding list (prefix, iri), avoiding rdflib's default prefixes/namespaces."""
     k = k if k is not None else rng.randint(1, 6)
-    prefixes = rng.sample(NS_PREFIXES, min(k, len(NS_PREFIXES)))
+    labels = NS_PREFIXES + ([" lead", "trail ", "ta\tb"] if odd_labels else [])
+    prefixes = rng.sample(labels, min(k, len(labels)))
     pool = list(vocab_ns or gen.NAMESPACES) + ["urn:x:", "nosep", "http://ex.org/ns/a", "http://ex.org/ü/"]
     iris = rng.sample(pool, min(len(prefixes), len(pool)))
     return list(zip(prefixes, iris))
